@@ -14,6 +14,7 @@ EXTRA_DOC = '''<wsdl:definitions xmlns:wsdl="http://schemas.xmlsoap.org/wsdl/" x
 <wsdl:types><xs:schema targetNamespace="urn:verif:a" elementFormDefault="qualified">
 <xs:simpleType name="Code"><xs:annotation><xs:documentation>first line
 second line</xs:documentation></xs:annotation><xs:restriction base="xs:string"><xs:maxLength value="5"/><xs:enumeration value="a"/><xs:enumeration value="b"/></xs:restriction></xs:simpleType>
+<xs:simpleType name="ShortCode"><xs:restriction base="tns:Code"/></xs:simpleType>
 <xs:simpleType name="Qty"><xs:restriction base="xs:int"><xs:minInclusive value="1"/><xs:maxExclusive value="10"/></xs:restriction></xs:simpleType>
 <xs:complexType name="Line"><xs:sequence><xs:element name="code" type="tns:Code"/><xs:element name="qty" type="tns:Qty" minOccurs="0" maxOccurs="unbounded"/></xs:sequence><xs:attribute name="id" type="xs:string" use="required"/></xs:complexType>
 <xs:element name="Req"><xs:complexType><xs:sequence><xs:element name="line" type="tns:Line"/></xs:sequence></xs:complexType></xs:element>
@@ -36,10 +37,12 @@ def module_src(paths) -> str:
 mod verif_replay_w {
     use crate::reader::{WriteXml, XmlReader};
     use crate::utils::read_input_file_and_xsd_files_at_path;
-    struct FailAt { at: usize, n: usize }
+    // sticky: every write from index `at` on fails; one-shot: only that one write fails (a later piece may then succeed, which is
+    // what exposes an error that was swallowed in between)
+    struct FailAt { at: usize, n: usize, sticky: bool }
     impl std::io::Write for FailAt {
         fn write(&mut self, buf: &[u8]) -> std::io::Result<usize> {
-            if self.n == self.at { return Err(std::io::Error::other("injected sink failure")); }
+            if self.n == self.at { if !self.sticky { self.n += 1; } return Err(std::io::Error::other("injected sink failure")); }
             self.n += 1; Ok(buf.len())
         }
         fn flush(&mut self) -> std::io::Result<()> { Ok(()) }
@@ -56,19 +59,22 @@ mod verif_replay_w {
             let doc = match XmlReader::read_xml(&files) { Ok(d) => d, Err(e) => { println!("W|{path}|skip|parse: {e}"); continue; } };
             let mut full = Vec::new();
             if doc.write_xml(&mut full).is_err() { println!("W|{path}|skip|unconstrained write failed"); continue; }
-            let mut cnt = FailAt { at: usize::MAX, n: 0 };
+            let mut cnt = FailAt { at: usize::MAX, n: 0, sticky: true };
             doc.write_xml(&mut cnt).unwrap();
             let n = cnt.n;
             let mut bad = 0;
+            for sticky in [true, false] {
             for k in 0..n {
-                let mut w = FailAt { at: k, n: 0 };
+                let mut w = FailAt { at: k, n: 0, sticky };
                 let r = std::panic::catch_unwind(std::panic::AssertUnwindSafe(|| doc.write_xml(&mut w)));
                 match r {
                     Err(_) => { println!("W|{path}|{k}|PANIC"); bad += 1; }
                     Ok(Ok(())) => { println!("W|{path}|{k}|FALSE-SUCCESS"); bad += 1; }
-                    Ok(Err(_)) => {}
+                    Ok(Err(crate::error::WriterError::Io { .. })) => {}
+                    Ok(Err(e)) => { println!("W|{path}|{k}|NON-IO-ERROR {}", e.to_string().replace('|', "/").replace('\\n', " ")); bad += 1; }
                 }
                 if bad > 5 { break; }
+            }
             }
             let mut ob = OneByte(Vec::new());
             match doc.write_xml(&mut ob) { Ok(()) => if ob.0 != full { println!("W|{path}|short|DIFFERENT-OUTPUT"); }, Err(_) => println!("W|{path}|short|ERROR") }
